@@ -15,6 +15,8 @@ if len(sys.argv) > 1:
 def one(name):
     d = os.path.join(V, "seeded", name)
     meta = json.load(open(os.path.join(d, "meta.json")))
+    if meta.get("out_of_scope"):  # judged outside the property's statement (see its note); not re-run
+        return name, [], ["outside the statement"]
     if meta.get("neutralised_by"):  # a later fix: commit made this change behaviour-neutral; see its note
         return name, meta.get("caught_by", []), ["neutralised by " + meta["neutralised_by"]]
     checks = [meta["property"]] + [c for c in meta.get("also_run", []) if c != meta["property"]]
